@@ -546,7 +546,7 @@ func runJobctlScenarios(c *Ctx) {
 		w.adv(901)
 		w.setKill(w.clk.Now().Unix())
 		w.flush()
-		w.work() // kill batch: graceful delete of ps[1]; THEN force batch: ps[0]
+		w.work()          // kill batch: graceful delete of ps[1]; THEN force batch: ps[0]
 		w.deliver("pods") // the first of the two events: ps[1] (update), not ps[0] (delete)
 		w.work()
 		w.flush()
